@@ -197,4 +197,94 @@ theorem filter_isResponse_of_method {l : List Json} (h : ∀ j ∈ l, hasMethod 
   rw [isResponse_not_hasMethod hr] at h1
   cases h1
 
+theorem sendsOf_nil_of_no_send {l : List Obs} (h : ∀ o ∈ l, ∀ d j b, o ≠ Obs.send d j b) : sendsOf l = [] := by
+  induction l with
+  | nil => rfl
+  | cons o t ih =>
+    cases o with
+    | send d j b => exact absurd rfl (h _ (List.mem_cons_self ..) d j b)
+    | _ => simpa [sendsOf] using ih (fun o ho => h o (List.mem_cons_of_mem _ ho))
+
+/-! ## only set and call are routed -/
+
+theorem handleMethod_ok_of_not_routed (cfg : Config) (x : Ctx) (p : Peer) (req : Json) (m : Bytes)
+    (hs : (m == k "set") = false) (hc : (m == k "call") = false) :
+    HandlerOK req x (handleMethod cfg x p req m) := by
+  unfold handleMethod
+  by_cases h1 : (m == k "change") = true
+  · rw [if_pos h1]; exact changeState_ok ..
+  rw [if_neg h1, if_neg (by simp [hs]), if_neg (by simp [hc])]
+  by_cases h4 : (m == k "add") = true
+  · rw [if_pos h4]; exact addElement_ok ..
+  rw [if_neg h4]
+  by_cases h5 : (m == k "remove") = true
+  · rw [if_pos h5]; exact removeElementReq_ok ..
+  rw [if_neg h5]
+  by_cases h6 : (m == k "fetch") = true
+  · rw [if_pos h6]; exact fetchReq_ok ..
+  rw [if_neg h6]
+  by_cases h7 : (m == k "unfetch") = true
+  · rw [if_pos h7]; exact unfetchReq_ok ..
+  rw [if_neg h7]
+  by_cases h8 : (m == k "get") = true
+  · rw [if_pos h8]; exact getReq_ok ..
+  rw [if_neg h8]
+  by_cases h9 : (m == k "config") = true
+  · rw [if_pos h9]; exact configReq_ok ..
+  rw [if_neg h9]
+  by_cases h10 : (m == k "info") = true
+  · rw [if_pos h10]; exact infoReq_ok ..
+  rw [if_neg h10]
+  by_cases h11 : (m == k "authenticate") = true
+  · rw [if_pos h11]; exact authenticateReq_ok ..
+  rw [if_neg h11]
+  by_cases h12 : (m == k "passwd") = true
+  · rw [if_pos h12]; exact passwdReq_ok ..
+  rw [if_neg h12]
+  exact ⟨Frame.refl _, FromReq.error ..⟩
+
+/-- a request whose method is neither "set" nor "call" is never handed to another peer -/
+theorem not_routed_of_other_method (cfg : Config) (x : Ctx) (c : Nat) (req : Json) (m : Bytes)
+    (hm : req.getItem (k "method") = some (.str m))
+    (hs : (m == k "set") = false) (hc : (m == k "call") = false)
+    (new : List Obs) (hnew : (parseJsonRpc cfg x c req).1.out = new ++ x.out) : ¬ AcceptedRouted new := by
+  cases hp : findPeer x.st.peers c with
+  | none =>
+    have : (parseJsonRpc cfg x c req).1.out = [] ++ x.out := by simp [parseJsonRpc, hp]
+    rw [hnew] at this
+    have := List.append_cancel_right this
+    subst this
+    rintro ⟨o, ho, _⟩; cases ho
+  | some p =>
+    have hok := handleMethod_ok_of_not_routed cfg x p req m hs hc
+    obtain ⟨⟨⟨pre, hpre, hnot⟩, _⟩, hfrom⟩ := hok
+    have heq : parseJsonRpc cfg x c req = sendResponse (handleMethod cfg x p req m).1 c (handleMethod cfg x p req m).2 := by
+      simp only [parseJsonRpc, hp, hm]
+    rw [heq] at hnew
+    cases hr : (handleMethod cfg x p req m).2 with
+    | none =>
+      rw [hr] at hnew
+      simp only [sendResponse] at hnew
+      rw [hpre] at hnew
+      have := List.append_cancel_right hnew
+      subst this
+      rintro ⟨o, ho, hoa⟩
+      rw [obsNotif_not_accepted (hnot o ho)] at hoa; cases hoa
+    | some j =>
+      rw [hr] at hnew hfrom
+      simp only [sendResponse, send_eq] at hnew
+      rw [hpre] at hnew
+      have : new = .send c j ((handleMethod cfg x p req m).1.sends.headD true) :: pre :=
+        (List.append_cancel_right (by simpa using hnew)).symm
+      subst this
+      rintro ⟨o, ho, hoa⟩
+      rcases List.mem_cons.1 ho with rfl | ho
+      · rcases hfrom.respFor with hn | ⟨id, j', _, _, hj, hwf⟩
+        · cases hn
+        · cases hj
+          revert hoa
+          generalize (handleMethod cfg x p req m).1.sends.headD true = b
+          cases b <;> simp [obsAccepted, hwf.not_routed]
+      · rw [obsNotif_not_accepted (hnot o ho)] at hoa; cases hoa
+
 end Cjet.Daemon.C02
